@@ -983,6 +983,21 @@ def gen_semantic_probe_pivoted(rng):
             root(terms, kd, (val + rng.choice([0, Fraction(1, 2)] if kd == "leq" else [Fraction(1, 2)])) if val < -1 else val / 2)
         else:
             root(terms, "leq", 1)
+    # sometimes a slack with a KNOWN TERM made by the public new_var(lin) and bounded by set_lb / set_ub (executor style): the
+    # pivot it forces leaves rows with constants, which the target's substitution then has to carry
+    zdef = None
+    if rng.random() < 0.4:
+        vs = sorted(rng.sample(range(nv), 2))
+        zt = [(vs[0], rng.choice([1, 2, -1])), (vs[1], rng.choice([1, 3, Fraction(1, 2), -2]))]
+        zk = rng.choice([1, 3, -2, Fraction(5, 2)])
+        sc.add("varlin %s" % lin_str(zt, zk))
+        qz = eval_lin((zt, zk), q)
+        z = nv
+        lower = qz > zk or (qz == zk and rng.random() < 0.5)      # a bound the initial value (= zk) violates when possible
+        bval = qz - rng.choice([0, Fraction(1, 2)]) if lower else qz + rng.choice([0, Fraction(1, 2)])
+        sc.add("%s %d %s,0/1" % ("setlb" if lower else "setub", z, fr(bval)))
+        roots.append(("geq" if lower else "leq", (zt, zk), ([], bval)))
+        zdef = (z, zt, zk, qz)
     # the target: c*x (sometimes c*x + d*y) against a constant at / next to the probe point
     x = rng.randrange(nv)
     terms = [(x, rng.choice([2, 3, -2, Fraction(1, 2), -1, Fraction(-3, 2)]))]
@@ -990,7 +1005,12 @@ def gen_semantic_probe_pivoted(rng):
         y = rng.choice([v for v in range(nv) if v != x])
         terms = sorted(terms + [(y, rng.choice([1, -1, 2]))])
     kind = rng.choice(RELS + ["eq"])
-    const = eval_lin((terms, 0), q) + rng.choice([0, 0, 0, 1, -1, Fraction(1, 2)])
+    tval = eval_lin((terms, 0), q)
+    if zdef and rng.random() < 0.5:      # the slack itself in the target
+        cz = rng.choice([1, 2, -1, Fraction(1, 2)])
+        terms = sorted(terms + [(zdef[0], cz)])
+        tval += cz * zdef[3]
+    const = tval + rng.choice([0, 0, 0, 1, -1, Fraction(1, 2)])
     sc.add(("eq %s | %s" if kind == "eq" else "rel " + kind + " %s | %s") % (lin_str(terms, 0), lin_str([], const)))
     tk = k
     k += 1
@@ -1008,7 +1028,7 @@ def gen_semantic_probe_pivoted(rng):
         eqs.append(k)
         k += 1
     root_ok = all(rel_holds(rk, eval_lin(l, q), eval_lin(rt, q)) for rk, l, rt in roots)
-    holds = rel_holds(kind, eval_lin((terms, 0), q), Fraction(const))
+    holds = rel_holds(kind, tval, Fraction(const))
     exp = []
     for sign in ((1, 0) if kind != "eq" else (1,)):
         sc.add("checklits %d %d %s" % (tk, sign, " ".join("%d 1" % e for e in eqs)))
